@@ -52,6 +52,25 @@ def monitor(rep, tier_, rng):
                         if not is_special(t) and t[3] > prec:
                             rep.violation("operator %s returned %d bits at prec %d" % (nm, t[3], prec),
                                           {"fn": "operator " + nm, "args": [repr(a), repr(b)], "prec": prec, "value": list(t)})
+            # construction from values of another context / higher precision (documented as rounding)
+            other = mp.clone(); other.prec = prec + 150
+            for _ in range(10 * n_each):
+                big = other.mpf(rng.getrandbits(prec + 120) | 1) / 3 + other.mpf(rng.randint(1, 9))
+                bigc = other.mpc(big, big / 7)
+                for nm, f in (("mpf(foreign mpf)", lambda: mp.mpf(big)), ("mpf(foreign, prec=)", lambda: mp.mpf(big, prec=max(1, prec - 7))),
+                              ("mpc(foreign, foreign)", lambda: mp.mpc(big, big)), ("mpc(foreign mpc)", lambda: mp.mpc(bigc)),
+                              ("mpf + foreign", lambda: mp.mpf(1) + big), ("+foreign-as-mp", lambda: +mp.mpf(big))):
+                    calls += 1
+                    try:
+                        v = f()
+                    except Exception:
+                        errors += 1; continue
+                    lim = max(1, prec - 7) if "prec=" in nm else prec
+                    for t in parts(v):
+                        values += 1
+                        if not is_special(t) and t[3] > lim:
+                            rep.violation("%s returned %d bits at prec %d" % (nm, t[3], lim),
+                                          {"fn": nm, "args": [repr(big)], "prec": lim, "value": list(t)})
     finally:
         mp.prec = p0
     return {"monitor_calls": calls, "monitor_values_checked": values, "monitor_documented_errors": errors,
